@@ -596,6 +596,47 @@ pub fn c10_strategy(transports: BoxedStrategy<Transport>) -> BoxedStrategy<ConvC
 // ------------------------------------------------------------------------------------------
 // C12: persistence and orderly close
 
+/// a connection that stays open "serves later requests": also the 300th, also when the heads of
+/// all requests together are many times any per-request limit
+pub fn c12_long_strategy(transports: BoxedStrategy<Transport>) -> BoxedStrategy<ConvCase> {
+    (proptest::sample::select(vec![(30usize, 900usize), (120, 0), (300, 0), (60, 300)]), any::<bool>(), transports, proptest::collection::vec(small_respond(), 3), 0u8..3)
+        .prop_map(|((n, pad), v10, transport, fins, mode)| {
+            let mut conv = Conversation::default();
+            for i in 0..n {
+                let mut r = ReqSpec::simple(i as u32);
+                if v10 {
+                    r.version = "HTTP/1.0".into();
+                    r.headers.push(Hdr::new("Connection", "keep-alive"));
+                }
+                if pad > 0 {
+                    r.headers.push(Hdr::new("Cookie", &"c".repeat(pad)));
+                }
+                conv.reqs.push(r);
+            }
+            let progs: Vec<Prog> = fins.into_iter().map(|finish| Prog { read: ReadPlan::None, finish }).collect();
+            let rd = render(&conv);
+            let total = rd.bytes.len();
+            let script = match mode {
+                // all at once, then half-close: everything received is answered
+                0 => vec![Step::Send { from: 0, to: total }, Step::HalfClose],
+                // all at once, the client waits for every answer before it closes
+                1 => vec![Step::Send { from: 0, to: total }, Step::AwaitFinals(n), Step::HalfClose],
+                // one request at a time
+                _ => {
+                    let mut s = vec![];
+                    for (k, r) in rd.ranges.iter().enumerate() {
+                        s.push(Step::Send { from: r.start, to: r.end });
+                        s.push(Step::AwaitFinals(k + 1));
+                    }
+                    s.push(Step::HalfClose);
+                    s
+                }
+            };
+            ConvCase { conv, progs, script, transport }
+        })
+        .boxed()
+}
+
 pub fn c12_strategy(transports: BoxedStrategy<Transport>) -> BoxedStrategy<ConvCase> {
     let conn11 = prop_oneof![
         6 => Just(None),
